@@ -41,7 +41,20 @@ pub const F_LEXTERM: u32 = 64; // with F_LEX: also return the terminals as a Coq
 pub struct Fail {
     pub class: &'static str,
     pub detail: String,
+    /// root-cause signature of a recognised failure shape ("" = unclassified)
+    pub sig: &'static str,
 }
+
+pub fn mkfail(class: &'static str, detail: String) -> Fail {
+    Fail { class, detail, sig: "" }
+}
+
+/// Signature F1: inside one Trivia list (= the parser's pending_trivia when it was attached) a
+/// TriviumSkippedNode sits *after* siblings whose text follows it in the source: an already
+/// taken node was appended to pending_trivia after tokens that were skipped while (or after) it
+/// was parsed (parser.rs skip_taken_node_with_offset).  Recognised only when moving skipped-node
+/// children earlier - and nothing else - reproduces the input slice exactly.
+pub const SIG_F1: &str = "F1-skipped-node-after-skipped-tokens";
 
 pub struct RealTrivium {
     pub kind: String,
@@ -109,15 +122,12 @@ pub fn lex_real(text: &str, fails: &mut Vec<Fail>) -> Option<Vec<RealTerminal>> 
     });
     match r {
         Err(m) => {
-            fails.push(Fail { class: "panic-lex", detail: m });
+            fails.push(mkfail("panic-lex", m));
             None
         }
         Ok((res, no_progress)) => {
             if let Some(i) = no_progress {
-                fails.push(Fail {
-                    class: "lexer-no-progress",
-                    detail: format!("terminal #{i} is not EndOfFile and consumed nothing"),
-                });
+                fails.push(mkfail("lexer-no-progress", format!("terminal #{i} is not EndOfFile and consumed nothing")));
             }
             let mut cat = String::new();
             for t in &res {
@@ -131,27 +141,21 @@ pub fn lex_real(text: &str, fails: &mut Vec<Fail>) -> Option<Vec<RealTerminal>> 
             }
             if cat != text && no_progress.is_none() {
                 let p = cat.bytes().zip(text.bytes()).take_while(|(a, b)| a == b).count();
-                fails.push(Fail {
-                    class: "lexer-lossless",
-                    detail: format!(
+                fails.push(mkfail("lexer-lossless", format!(
                         "concatenated lexer terminals differ from the input at byte {p} (lengths {} vs {})",
                         cat.len(),
                         text.len()
-                    ),
-                });
+                    )));
             }
             if res.last().map(|t| t.kind != "TerminalEndOfFile").unwrap_or(true) && no_progress.is_none() {
-                fails.push(Fail { class: "lexer-no-eof", detail: "no EndOfFile terminal".into() });
+                fails.push(mkfail("lexer-no-eof", "no EndOfFile terminal".into()));
             }
             for (i, t) in res.iter().enumerate() {
                 let w = t.text.len()
                     + t.lead.iter().map(|x| x.text.len()).sum::<usize>()
                     + t.trail.iter().map(|x| x.text.len()).sum::<usize>();
                 if w as u32 != t.width {
-                    fails.push(Fail {
-                        class: "lexer-width",
-                        detail: format!("terminal #{i}: width() = {} but its texts have {} bytes", t.width, w),
-                    });
+                    fails.push(mkfail("lexer-width", format!("terminal #{i}: width() = {} but its texts have {} bytes", t.width, w)));
                     break;
                 }
             }
@@ -170,6 +174,8 @@ pub struct TreeStats {
     pub missing: u64,
     pub max_depth: u64,
     pub diags: u64,
+    /// Trivia lists recognised as known finding F1
+    pub f1: u64,
 }
 
 struct Walk<'a, 'db> {
@@ -177,21 +183,127 @@ struct Walk<'a, 'db> {
     text: &'a str,
     pos: usize, // bytes of token text seen so far in preorder
     concat_ok: bool,
+    /// > 0 while walking a Trivia list recognised as signature F1: the positional checks are
+    /// known to fail there (consequences), the structural ones (widths, children contiguity) stay.
+    in_permuted: u32,
+    /// steps left for the signature matcher (backtracking)
+    budget: std::cell::Cell<u64>,
     fails: Vec<Fail>,
     st: TreeStats,
     /// Coq term of the tree (F_TREE)
     want_tree: bool,
 }
 
+fn green_text(db: &dyn salsa::Database, g: &cairo_lang_syntax::node::green::GreenNode<'_>, out: &mut String) {
+    match &g.details {
+        GreenNodeDetails::Token(t) => out.push_str(t.long(db)),
+        GreenNodeDetails::Node { children, .. } => {
+            for c in children.iter() {
+                green_text(db, c.long(db), out);
+            }
+        }
+    }
+}
+
 impl<'a, 'db> Walk<'a, 'db> {
     fn fail(&mut self, class: &'static str, detail: String) {
         if self.fails.len() < 8 {
-            self.fails.push(Fail { class, detail });
+            let sig = if self.in_permuted > 0 { SIG_F1 } else { "" };
+            self.fails.push(Fail { class, detail, sig });
         }
     }
-    /// Returns (start, end) of the node as computed *by this walk* from token texts only, and the
-    /// Coq term of the subtree when requested.
-    fn node(&mut self, n: SyntaxNode<'db>, depth: u64) -> (usize, usize, String) {
+
+    /// Matches the green subtree against the input at `pos`, allowing - inside Trivia lists only -
+    /// a TriviumSkippedNode to be read before siblings that precede it in the list (signature F1).
+    /// Returns the position after the subtree; `moved` counts the nodes read early.
+    fn spell(&self, g: &cairo_lang_syntax::node::green::GreenNode<'db>, pos: usize, moved: &mut usize) -> Option<usize> {
+        let db = self.db;
+        match &g.details {
+            GreenNodeDetails::Token(t) => {
+                let t = t.long(db).as_str();
+                self.text.get(pos..)?.starts_with(t).then_some(pos + t.len())
+            }
+            GreenNodeDetails::Node { children, .. } => {
+                if g.kind == SyntaxKind::Trivia {
+                    return self.spell_list(children, pos, moved);
+                }
+                let mut p = pos;
+                for c in children.iter() {
+                    p = self.spell(c.long(db), p, moved)?;
+                }
+                Some(p)
+            }
+        }
+    }
+
+    fn spell_list(
+        &self,
+        kids: &[cairo_lang_syntax::node::ids::GreenId<'db>],
+        pos: usize,
+        moved: &mut usize,
+    ) -> Option<usize> {
+        let remaining: Vec<usize> = (0..kids.len()).collect();
+        self.spell_rest(kids, &remaining, pos, moved)
+    }
+
+    /// Backtracking: the next piece of the source is either the first remaining child, or a
+    /// TriviumSkippedNode further right (read early).
+    fn spell_rest(
+        &self,
+        kids: &[cairo_lang_syntax::node::ids::GreenId<'db>],
+        remaining: &[usize],
+        p: usize,
+        moved: &mut usize,
+    ) -> Option<usize> {
+        let db = self.db;
+        if remaining.is_empty() {
+            return Some(p);
+        }
+        self.budget.set(self.budget.get().checked_sub(1)?);
+        let mut m = 0;
+        if let Some(np) = self.spell(kids[remaining[0]].long(db), p, &mut m) {
+            if let Some(end) = self.spell_rest(kids, &remaining[1..], np, &mut m) {
+                *moved += m;
+                return Some(end);
+            }
+        }
+        for idx in 1..remaining.len() {
+            let g = kids[remaining[idx]].long(db);
+            if g.kind != SyntaxKind::TriviumSkippedNode {
+                continue;
+            }
+            let mut m = 0;
+            if let Some(np) = self.spell(g, p, &mut m) {
+                if np > p {
+                    let mut rest: Vec<usize> = remaining.to_vec();
+                    rest.remove(idx);
+                    if let Some(end) = self.spell_rest(kids, &rest, np, &mut m) {
+                        *moved += 1 + m;
+                        return Some(end);
+                    }
+                }
+            }
+        }
+        None
+    }
+
+    /// Signature F1 on a Trivia node about to be walked at input position `self.pos`: returns the
+    /// total text length of the list when its children - with some TriviumSkippedNode children
+    /// (possibly nested) read before siblings that precede them, and nothing else changed - spell
+    /// exactly the input at `self.pos`.
+    fn trivia_is_f1(&self, n: SyntaxNode<'db>) -> Option<usize> {
+        let db = self.db;
+        let kids = n.green_node(db).children();
+        if !kids.iter().any(|c| c.long(db).kind == SyntaxKind::TriviumSkippedNode) {
+            return None;
+        }
+        let mut moved = 0;
+        let end = self.spell_list(kids, self.pos, &mut moved)?;
+        (moved > 0).then_some(end - self.pos)
+    }
+
+    /// Returns the Coq term of the subtree when requested.
+    fn node(&mut self, n: SyntaxNode<'db>, depth: u64) -> String {
         let db = self.db;
         self.st.nodes += 1;
         self.st.max_depth = self.st.max_depth.max(depth);
@@ -205,6 +317,7 @@ impl<'a, 'db> Walk<'a, 'db> {
         if kind.is_missing() {
             self.st.missing += 1;
         }
+        let positional = self.in_permuted == 0;
         let green = n.green_node(db);
         match &green.details {
             GreenNodeDetails::Token(t) => {
@@ -214,21 +327,26 @@ impl<'a, 'db> Walk<'a, 'db> {
                     self.st.skipped_tokens += 1;
                 }
                 let start = self.pos;
-                // C10: the token text is the next piece of the input
-                if self.concat_ok && !self.text[start.min(self.text.len())..].starts_with(t) {
-                    self.concat_ok = false;
-                    self.fail(
-                        "lossless-concat",
-                        format!(
-                            "token {kind:?} {:?}: preorder concatenation of token texts departs from the input \
-                             at byte {start}",
-                            trunc(t)
-                        ),
-                    );
-                }
-                self.pos += t.len();
-                if off != start {
-                    self.fail("leaf-offset", format!("token {kind:?} {:?}: offset {off}, but {start} bytes of token text precede it", trunc(t)));
+                if positional {
+                    // C10: the token text is the next piece of the input
+                    if self.concat_ok && !self.text.get(start..).map(|r| r.starts_with(t)).unwrap_or(false) {
+                        self.concat_ok = false;
+                        self.fail(
+                            "lossless-concat",
+                            format!(
+                                "token {kind:?} {:?}: preorder concatenation of token texts departs from the input \
+                                 at byte {start}",
+                                trunc(t)
+                            ),
+                        );
+                    }
+                    self.pos += t.len();
+                    if off != start {
+                        self.fail(
+                            "leaf-offset",
+                            format!("token {kind:?} {:?}: offset {off}, but {start} bytes of token text precede it", trunc(t)),
+                        );
+                    }
                 }
                 if width != t.len() {
                     self.fail("width-sum", format!("token {kind:?} {:?}: width {width} != text length {}", trunc(t), t.len()));
@@ -238,7 +356,7 @@ impl<'a, 'db> Walk<'a, 'db> {
                 }
                 match catch(|| n.get_text(db).to_string()) {
                     Ok(gt) => {
-                        if gt != t {
+                        if positional && gt != t {
                             self.fail("get-text", format!("token {kind:?}: get_text {:?} != token text {:?}", trunc(&gt), trunc(t)));
                         }
                     }
@@ -247,8 +365,7 @@ impl<'a, 'db> Walk<'a, 'db> {
                 if !n.get_children(db).is_empty() {
                     self.fail("span-children", format!("token {kind:?} has children"));
                 }
-                let term = if self.want_tree { coqfmt::green_token(&format!("{kind:?}"), t, off, width) } else { String::new() };
-                (start, self.pos, term)
+                if self.want_tree { coqfmt::green_token(&format!("{kind:?}"), t, off, width) } else { String::new() }
             }
             GreenNodeDetails::Node { children: gchildren, width: gw } => {
                 if kind.is_terminal() {
@@ -258,6 +375,29 @@ impl<'a, 'db> Walk<'a, 'db> {
                     self.st.skipped_nodes += 1;
                 }
                 let start = self.pos;
+                // known finding F1: recognise the signature, then resynchronise after the list
+                let mut f1_len = None;
+                if kind == SyntaxKind::Trivia && positional && self.concat_ok {
+                    if let Some(total) = self.trivia_is_f1(n) {
+                        f1_len = Some(total);
+                        self.st.f1 += 1;
+                        self.fails.push(Fail {
+                            class: "lossless-concat",
+                            detail: format!(
+                                "Trivia list at byte {start}: a TriviumSkippedNode follows siblings whose text comes after \
+                                 it in the source; the tree spells {:?} where the input has {:?}",
+                                {
+                                    let mut t = String::new();
+                                    green_text(db, green, &mut t);
+                                    trunc(&t)
+                                },
+                                trunc(&self.text[start..start + total])
+                            ),
+                            sig: SIG_F1,
+                        });
+                        self.in_permuted += 1;
+                    }
+                }
                 let children = n.get_children(db);
                 if children.len() != gchildren.len() {
                     self.fail("span-children", format!("{kind:?}: {} red children, {} green children", children.len(), gchildren.len()));
@@ -279,7 +419,7 @@ impl<'a, 'db> Walk<'a, 'db> {
                     }
                     expect = coff + cw;
                     sum += cw;
-                    let (_, _, t) = self.node(*c, depth + 1);
+                    let t = self.node(*c, depth + 1);
                     if self.want_tree {
                         terms.push(t);
                     }
@@ -290,7 +430,12 @@ impl<'a, 'db> Walk<'a, 'db> {
                 if expect != off + width {
                     self.fail("span-children", format!("{kind:?}: last child ends at {expect}, node ends at {}", off + width));
                 }
-                if start != off || self.pos != off + width {
+                if let Some(total) = f1_len {
+                    self.in_permuted -= 1;
+                    self.pos = start + total;
+                }
+                let positional_here = self.in_permuted == 0;
+                if positional_here && (start != off || self.pos != off + width) {
                     self.fail(
                         "node-span-vs-leaves",
                         format!("{kind:?}: span [{off},{}) but its tokens occupy [{start},{}) of the preorder text", off + width, self.pos),
@@ -300,14 +445,13 @@ impl<'a, 'db> Walk<'a, 'db> {
                 match catch(|| n.get_text(db).to_string()) {
                     Ok(gt) => {
                         let want = self.text.get(start..self.pos);
-                        if want != Some(gt.as_str()) {
+                        if positional_here && want != Some(gt.as_str()) {
                             self.fail("get-text", format!("{kind:?}: get_text {:?} != input[{start}..{}]", trunc(&gt), self.pos));
                         }
                     }
                     Err(m) => self.fail("panic-get-text", format!("{kind:?} span {span:?}: {m}")),
                 }
-                let term = if self.want_tree { coqfmt::green_node(&format!("{kind:?}"), &terms, off, width) } else { String::new() };
-                (start, self.pos, term)
+                if self.want_tree { coqfmt::green_node(&format!("{kind:?}"), &terms, off, width) } else { String::new() }
             }
         }
     }
@@ -326,17 +470,11 @@ fn check_diags(
     for d in diags {
         let (s, e) = (d.span.start.as_u32() as usize, d.span.end.as_u32() as usize);
         if s > e || e > text.len() {
-            fails.push(Fail {
-                class: "diag-span",
-                detail: format!("{what}: diagnostic {:?} has span [{s},{e}) outside the file [0,{}]", d.kind, text.len()),
-            });
+            fails.push(mkfail("diag-span", format!("{what}: diagnostic {:?} has span [{s},{e}) outside the file [0,{}]", d.kind, text.len())));
             return;
         }
         if !text.is_char_boundary(s) || !text.is_char_boundary(e) {
-            fails.push(Fail {
-                class: "diag-span",
-                detail: format!("{what}: diagnostic {:?} span [{s},{e}) is not on character boundaries", d.kind),
-            });
+            fails.push(mkfail("diag-span", format!("{what}: diagnostic {:?} span [{s},{e}) is not on character boundaries", d.kind)));
             return;
         }
     }
@@ -388,11 +526,13 @@ pub fn oracle(text: &str, want_tree: bool, want_oplog: bool, fails: &mut Vec<Fai
             text,
             pos: 0,
             concat_ok: true,
+            in_permuted: 0,
+            budget: std::cell::Cell::new(2_000_000),
             fails: vec![],
             st: TreeStats::default(),
             want_tree,
         };
-        let (_, _, term) = w.node(root, 0);
+        let term = w.node(root, 0);
         if w.concat_ok && w.pos != text.len() {
             w.fail(
                 "lossless-concat",
@@ -409,7 +549,7 @@ pub fn oracle(text: &str, want_tree: bool, want_oplog: bool, fails: &mut Vec<Fai
         check_diags(text, &all, &mut fs, "parse_file");
         // rendering the diagnostics computes line/column positions from the spans
         if let Err(m) = catch(|| diagnostics.format(db)) {
-            fs.push(Fail { class: "panic-diag-format", detail: m });
+            fs.push(mkfail("panic-diag-format", m));
         }
         let error_free = diagnostics.check_error_free().is_ok();
         (fs, OracleOut { stats: w.st, tree: want_tree.then_some(term), oplog, error_free })
@@ -421,7 +561,7 @@ pub fn oracle(text: &str, want_tree: bool, want_oplog: bool, fails: &mut Vec<Fai
         }
         Err(m) => {
             crate::hook::finish();
-            fails.push(Fail { class: "panic-parse", detail: m });
+            fails.push(mkfail("panic-parse", m));
             None
         }
     }
@@ -449,10 +589,7 @@ pub fn modes(text: &str, fails: &mut Vec<Fail>) -> (bool, bool) {
                 while let Some(n) = stack.pop() {
                     let s = n.span(db);
                     if s.end.as_u32() as usize > text.len() {
-                        fs.push(Fail {
-                            class: "node-span-outside",
-                            detail: format!("{what}: node {:?} span {s:?} outside the file", n.kind(db)),
-                        });
+                        fs.push(mkfail("node-span-outside", format!("{what}: node {:?} span {s:?} outside the file", n.kind(db))));
                         break;
                     }
                     stack.extend(n.get_children(db).iter().copied());
@@ -470,10 +607,7 @@ pub fn modes(text: &str, fails: &mut Vec<Fail>) -> (bool, bool) {
                     cover.1 = covered
                 }
             }
-            Err(m) => fails.push(Fail {
-                class: if i == 0 { "panic-parse-expr" } else { "panic-parse-stmts" },
-                detail: m,
-            }),
+            Err(m) => fails.push(mkfail(if i == 0 { "panic-parse-expr" } else { "panic-parse-stmts" }, m)),
         }
     }
     cover
@@ -484,7 +618,7 @@ pub fn format(text: &str, fails: &mut Vec<Fail>) -> (bool, usize) {
     let mut accepted = false;
     match catch(|| CairoFormatter::new(FormatterConfig::default()).format_to_string(&text.to_string()).is_ok()) {
         Ok(ok) => accepted = ok,
-        Err(m) => fails.push(Fail { class: "panic-format", detail: format!("CairoFormatter::format_to_string: {m}") }),
+        Err(m) => fails.push(mkfail("panic-format", format!("CairoFormatter::format_to_string: {m}"))),
     }
     let mut n = 0;
     match catch(|| {
@@ -492,7 +626,7 @@ pub fn format(text: &str, fails: &mut Vec<Fail>) -> (bool, usize) {
         cairo_lang_formatter::format_string(&db, text.to_string()).len()
     }) {
         Ok(k) => n = k,
-        Err(m) => fails.push(Fail { class: "panic-format-string", detail: format!("format_string: {m}") }),
+        Err(m) => fails.push(mkfail("panic-format-string", format!("format_string: {m}"))),
     }
     (accepted, n)
 }
@@ -514,7 +648,7 @@ pub fn process(flags: u32, text: &str) -> Value {
             resp["stats"] = json!({
                 "nodes": s.nodes, "tokens": s.tokens, "terminals": s.terminals,
                 "skipped_tokens": s.skipped_tokens, "skipped_nodes": s.skipped_nodes,
-                "missing": s.missing, "max_depth": s.max_depth, "diags": s.diags,
+                "missing": s.missing, "max_depth": s.max_depth, "diags": s.diags, "f1": s.f1,
                 "error_free": o.error_free,
             });
             if let Some(t) = o.tree {
@@ -531,11 +665,20 @@ pub fn process(flags: u32, text: &str) -> Value {
         resp["stmts_cover"] = json!(b);
     }
     if flags & F_FORMAT != 0 {
+        let n0 = fails.len();
         let (acc, n) = format(text, &mut fails);
+        // consequence of known finding F1: the formatter reads get_text of nodes inside the
+        // permuted trivia list of this very tree and hits a non-char boundary
+        let has_f1 = resp["stats"]["f1"].as_u64().unwrap_or(0) > 0;
+        for f in fails[n0..].iter_mut() {
+            if has_f1 && f.detail.contains("is not a char boundary") {
+                f.sig = SIG_F1;
+            }
+        }
         resp["fmt_accepted"] = json!(acc);
         resp["fmt_len"] = json!(n);
     }
-    resp["fails"] = Value::Array(fails.iter().map(|f| json!({"class": f.class, "detail": f.detail})).collect());
+    resp["fails"] = Value::Array(fails.iter().map(|f| json!({"class": f.class, "detail": f.detail, "sig": f.sig})).collect());
     resp
 }
 
